@@ -11,76 +11,14 @@ PROP = "C01"
 MODULES = ["DV.Properties.C01", "DV.Properties.C01Tables"]
 
 
-class Diff:
-    """Collects (line, real output) pairs; later compares with the model."""
-
-    def __init__(self, res: Result):
-        self.res = res
-        self.lines: list[str] = []
-        self.real: list[str] = []
-        self.seen: set = set()
-
-    def add(self, line: str) -> str:
-        from realcodec import real
-        r = real(line)
-        if line not in self.seen:
-            self.seen.add(line)
-            self.lines.append(line)
-            self.real.append(r)
-            self.res.cases += 1
-            self.res.count("cmd:" + line.split(" ", 1)[0])
-            if r.startswith("EXC"):
-                self.res.count("real:" + r)
-            else:
-                self.res.nontrivial.add(hash(line))
-        return r
-
-    def compare(self) -> list[dict]:
-        model = run_driver(self.lines)
-        div = []
-        for l, r, m in zip(self.lines, self.real, model):
-            if r != m:
-                div.append({"line": l[:4000], "real": r[:4000], "model": m[:4000]})
-        self.res.traces_validated += len(self.lines)
-        return div
-
-
-def entries():
-    from realcodec import D, ty_of
-    out = []
-    for code, e in D.AVP_DICTIONARY.items():
-        out.append((code, 0, e))
-    for vendor, vd in D.AVP_VENDOR_DICTIONARY.items():
-        if vendor == 0:
-            continue
-        for code, e in vd.items():
-            out.append((code, vendor, e))
-    return out
+from codecdiff import Diff, entries, build_pool
 
 
 def run_cases(res: Result, rng: random.Random, per_entry: int, n_raw: int, oracle_fail: list):
     from realcodec import ty_of, TY_TAG, A
     d = Diff(res)
     ents = entries()
-    # a pool of encoded member AVPs for grouped values (nesting grows with rounds)
-    pool: list[str] = []
-    for code, vendor, e in rng.sample(ents, min(60, len(ents))):
-        ty = ty_of(e["type"](0))
-        if ty == gen.T_GRP:
-            continue
-        lit = rng.choice(gen.valid_values(ty, rng, 8))
-        r = d.add(f"AVPNEW {code} {vendor} {lit} 0 0")
-        if not r.startswith("EXC"):
-            pool.append(r)
-    grp_ents = [(c, v, e) for c, v, e in ents if ty_of(e["type"](0)) == gen.T_GRP]
-    for depth in range(5):
-        newpool = []
-        for code, vendor, e in rng.sample(grp_ents, min(12, len(grp_ents))):
-            lit = rng.choice(gen.valid_values(gen.T_GRP, rng, 4, avp_pool=pool))
-            r = d.add(f"AVPNEW {code} {vendor} {lit} 0 0")
-            if not r.startswith("EXC"):
-                newpool.append(r)
-        pool += newpool
+    pool = build_pool(d, rng)
 
     for code, vendor, e in ents:
         ty = ty_of(e["type"](0))
